@@ -254,6 +254,8 @@ def check(ctx, rep):
     rep.rule("R16f", "archive member names are the stored bytes decoded as UTF-8/surrogateescape (cp437 round trip only without the UTF-8 flag)", floor=4)
     rep.rule("R16g", "archive index lookup evaluated on a representative index: members found, non-members refused, whatever lookups failed before", floor=1)
     rep.rule("R16h", "the archive VFS reports every member as a regular file and every directory as a directory: the file-type bits of stat() are constants, not archive metadata", floor=1)
+    rep.rule("R16i", "the index builder makes a directory level only where that name is not in its parent yet: an explicit directory member listed "
+             "after its children (or twice) does not replace the level that holds them", floor=1)
     rep.rule("R16d", "inner handler = HandlerMultiplexer.getHandler(..., vfs=<archive VFS>) on the same selector", floor=1)
     rep.assume("zipfile.ZipFile methods act on the already opened archive only")
     vfs = ctx.cls("handlers.base.VFS_Real")
@@ -444,6 +446,7 @@ def check(ctx, rep):
         rep.add("R16g", f"{gi.qualname}: members found, non-members refused, independent of earlier lookups [{n} lookups]", not problems, ctx.where(gi),
                 "; ".join(sorted(set(problems))[:3]), key=f"R16g|{S.qualname}")
     stat_mode_obligations(ctx, rep, "R16h")
+    index_level_obligations(ctx, rep, "R16i")
     # R16d
     zh = ctx.cls("handlers.ZIP.ZIPHandler")
     gh = ctx.func("handlers.HandlerMultiplexer.getHandler")
@@ -468,3 +471,70 @@ def check(ctx, rep):
         if not found:
             rep.fail("R16d", "ZIPHandler inner chain", ctx.where(zh.methods.get("_makehandler") or list(zh.methods.values())[0]),
                      "ZIPHandler never re-runs the handler chain on the archive VFS")
+
+
+# ---------------------------------------------------------------------------------------------- R16i
+def index_level_obligations(ctx, rep, rule="R16i"):
+    """Every place of the index builder (populate_cache and the methods of the archive VFS it calls) that stores a fresh,
+    empty directory level has to be guarded by a membership test of the name it is stored under.  Archives list their
+    members in any order: `dir/file` before `dir/` is what 7-Zip and appended archives look like."""
+    from ..structure import enclosing
+
+    prog = ctx.prog
+    found = 0
+    vz = ctx.cls("handlers.ZIP.VFSZip")
+    pc = prog.resolve_method(vz, "populate_cache") if vz else None
+    if pc is None:
+        rep.fail(rule, "VFSZip.populate_cache", detail="index builder not found")
+        return
+    # the builder and the methods of the class it reaches through self
+    todo, scope = [pc], []
+    while todo:
+        f = todo.pop()
+        if f in scope:
+            continue
+        scope.append(f)
+        for n in ast.walk(f.node):
+            if isinstance(n, ast.Call) and isinstance(n.func, ast.Attribute) and dotted(n.func.value) == "self":
+                g = prog.resolve_method(vz, n.func.attr)
+                if g is not None and g.cls is not None and g.cls.module is vz.module:
+                    todo.append(g)
+
+    def empty_dir(e):
+        return (isinstance(e, ast.Dict) and not e.keys) or (isinstance(e, ast.Call) and dotted(e.func) == "dict" and not e.args and not e.keywords)
+
+    def guarded(f, node):
+        for anc, field in enclosing(f.node, node):
+            if isinstance(anc, ast.If):
+                ops = [type(o) for c in ast.walk(anc.test) if isinstance(c, ast.Compare) for o in c.ops]
+                neg = any(isinstance(u, ast.UnaryOp) and isinstance(u.op, ast.Not) for u in ast.walk(anc.test))
+                if field == "body" and (ast.NotIn in ops or (ast.In in ops and neg)):
+                    return True
+                if field == "orelse" and ast.In in ops and not neg:
+                    return True
+                if any(isinstance(c, ast.Call) and isinstance(c.func, ast.Attribute) and c.func.attr == "get" for c in ast.walk(anc.test)):
+                    return True
+            if isinstance(anc, ast.ExceptHandler) and any(x in (dotted(anc.type) or "") for x in ("KeyError",)):
+                return True
+        return False
+
+    for f in scope:
+        rep.analysed(f.qualname)
+        for n in ast.walk(f.node):
+            site = None
+            if isinstance(n, ast.Assign) and empty_dir(n.value) and any(isinstance(t, ast.Subscript) for t in n.targets):
+                site = n
+            elif isinstance(n, ast.Call) and any(empty_dir(a) for a in list(n.args) + [k.value for k in n.keywords]) \
+                    and not (isinstance(n.func, ast.Attribute) and n.func.attr in ("setdefault", "get", "pop")):
+                site = n
+            if site is None:
+                continue
+            found += 1
+            ok = guarded(f, site)
+            rep.add(rule, f"{f.qualname}: {norm(site)[:60]}", ok, ctx.where(f, site),
+                    "" if ok else "a new, empty directory level is stored without testing whether the name is in its parent already: "
+                    "a directory member that comes after its children empties the directory", key=f"{rule}|{f.qualname}|{norm(site)[:60]}")
+    if not found:
+        # nothing creates a level explicitly (setdefault / defaultdict): nothing to guard
+        rep.ok(rule, f"{pc.qualname}: no unconditional creation of a directory level", ctx.where(pc), "levels are made by setdefault or a mapping default",
+               key=f"{rule}|none")
